@@ -141,6 +141,17 @@ def ACube.to (c : ACube) (new : UnitM) : Except Err ACube :=
                    unc := scaleUnc c.unc (List.replicate c.data.length factor) }
     else .error .unitsError
 
+/-- `unit ** k` for an integer `k`: every exponent times `k`, the scale to the power `k` -/
+def UnitM.pow (u : UnitM) (k : Int) : UnitM := { dim := trimDims (u.dim.map (· * k)), scale := u.scale ^ k }
+
+/-- `cube ** k` for an integer `k`: `data ** k`, `unit ** k` (a cube without unit stays without).  The
+uncertainty of a power is astropy's `propagate(np.power, …)`: not modelled, so the model carries none on. -/
+def ACube.pow (c : ACube) (k : Int) : ACube :=
+  { c with data := c.data.map (· ^ k), unit := c.unit.map (·.pow k), unc := none }
+
+/-- `value / cube` = `(cube ** -1) * value` -/
+def ACube.rdiv (c : ACube) (v : Operand) : Except Err ACube := (c.pow (-1)).mul v
+
 /-- physical values in base units -/
 def ACube.phys (c : ACube) : List Rat := c.data.map (· * (cubeUnit c).scale)
 
